@@ -23,6 +23,7 @@ type PropConfig struct {
 	TrustedBase []string `json:"trusted_base"`
 	Assumptions []string `json:"assumptions"`
 	Bounded     []string `json:"bounded"`
+	BoundedFuncs []string `json:"bounded_funcs"` // functions checked in bounded mode (their contract carries `bounded k d`); never counted as proved
 	Explanation string   `json:"explanation"`
 }
 
@@ -202,6 +203,39 @@ func runCheck(repo, prop, tier string) int {
 			}
 		}
 	}
+	boundedNames := map[string]bool{}
+	var boundedInfo []map[string]interface{}
+	for _, key := range cfg.BoundedFuncs {
+		fn := byKey[key]
+		if fn == nil {
+			unbound = append(unbound, key+" (bounded: function not found)")
+			continue
+		}
+		spec := sp.lookupFunc(fn)
+		if spec == nil || spec.BoundK == 0 {
+			unbound = append(unbound, key+" (bounded: no contract with a `bounded k d` clause)")
+			continue
+		}
+		res := verifyFunc(w, sp, fn, spec, true)
+		if res.Err != "" || res.TooLarge || len(res.Unsupported) > 0 {
+			engineFailures = append(engineFailures, fmt.Sprintf("%s: err=%q tooLarge=%v unsupported=%v", key, res.Err, res.TooLarge, res.Unsupported))
+			continue
+		}
+		n := 0
+		for i, o := range res.Obligs {
+			if o.Kind == "cover" || kindMatches(o.Kind, kinds) {
+				o.Name = o.Name + " [bounded]"
+				boundedNames[o.Name] = true
+				jobs = append(jobs, job{o, res.Lits, i})
+				n++
+			}
+		}
+		boundedInfo = append(boundedInfo, map[string]interface{}{"function": key, "loop_unroll_k": spec.BoundK, "recursion_depth_d": spec.BoundD,
+			"complete_paths": res.Paths, "paths_cut_at_bound": res.Cuts, "query_instances": n})
+		for _, nn := range res.Notes {
+			notes[nn] = true
+		}
+	}
 	for _, ln := range cfg.Lemmas {
 		var l *LemmaSpec
 		for _, c := range sp.Lemmas {
@@ -297,9 +331,18 @@ func runCheck(repo, prop, tier string) int {
 	var samples []map[string]interface{}
 	var knownLines []string
 	sort.Strings(order)
+	boundedTotal, boundedOK := 0, 0
 	for _, name := range order {
 		nr := named[name]
-		total++
+		if boundedNames[name] {
+			boundedTotal++
+			if len(nr.Failed) == 0 {
+				boundedOK++
+				continue
+			}
+		} else {
+			total++
+		}
 		if len(nr.Failed) == 0 {
 			discharged++
 			if len(samples) < 12 {
@@ -371,7 +414,10 @@ func runCheck(repo, prop, tier string) int {
 		"vacuous":                  vacuous,
 		"unbound_contracts":        unbound,
 		"known_findings":           knownLines,
-		"bounded":                  cfg.Bounded,
+		"bounded":                  boundedInfo,
+		"bounded_obligations":      boundedTotal,
+		"bounded_obligations_ok":   boundedOK,
+		"bounded_note":             "bounded checks are stand-ins: they are not counted in obligations/discharged",
 		"explanation":              cfg.Explanation,
 		"evaluations":              len(jobs),
 		"distinct_nontrivial":      total,
